@@ -77,7 +77,10 @@ CHECKS.update({
              "FallbackOnlyAfterVoted, OwnVotesNeverSlashable, StandstillForwarded) on the Votor model under every "
              "order of pool events, blockstore events (several blocks per slot, children before parents), timeouts, "
              "across a window boundary and pruning; every (state, event) transition is replayed by single-stepping the "
-             "real Votor (hooks) and comparing the broadcast votes/certificates (incl. signer index) and the per-slot state.",
+             "real Votor (hooks) and comparing the broadcast votes/certificates (incl. signer index) and the per-slot state. "
+             "MC_Node.tla composes Pool.tla and Votor.tla as consensus.rs wires them (FIFO event channels, own votes looped back "
+             "through the network with arbitrary delay): there the rules hold without assumptions about the pool, own votes are "
+             "never refused by the own pool, and the real PoolImpl + Votor pair is replayed against it.",
         note="pool guarantees towards Votor are assumed here and established by C06; timer arming not observed; " + TB,
         technique="TLA+ spec of Votor + TLC exhaustive BFS (bounded event count) + spec->code transition replay",
         design="4 C05"),
